@@ -602,6 +602,74 @@ async fn do_write_async(ctx: &Ctx<'_>, s: &WriteSpec) -> Out {
     }
 }
 
+/// Two streaming writers open at the same time (see `Op::TwoWriters`).
+fn do_two_sync(ctx: &Ctx, a: &WriteSpec, b: &WriteSpec, b_first: bool) -> Out {
+    let (da, db) = (ctx.blob(a.blob), ctx.blob(b.blob));
+    let mut wa = open_sync_writer(ctx, a, &da).map_err(err_out);
+    let mut wb = open_sync_writer(ctx, b, &db).map_err(err_out);
+    let (ca, cb) = (cut_chunks(&da, &a.chunks), cut_chunks(&db, &b.chunks));
+    for i in 0..ca.len().max(cb.len()) {
+        for (w, chunks) in [(&mut wa, &ca), (&mut wb, &cb)] {
+            if let (Ok(wr), Some(ch)) = (w.as_mut(), chunks.get(i)) {
+                if let Err(e) = sync_write_chunk(wr, ch) {
+                    *w = Err(io_out(e));
+                }
+            }
+        }
+    }
+    let fin = |w: Result<cacache::SyncWriter, Out>| match w {
+        Ok(w) => match w.commit() {
+            Ok(sri) => Out::Int(sri.to_string()),
+            Err(e) => err_out(e),
+        },
+        Err(o) => o,
+    };
+    let (oa, ob) = if b_first {
+        let ob = fin(wb);
+        (fin(wa), ob)
+    } else {
+        let oa = fin(wa);
+        (oa, fin(wb))
+    };
+    Out::Pair(Box::new(oa), Box::new(ob))
+}
+
+async fn do_two_async(ctx: &Ctx<'_>, a: &WriteSpec, b: &WriteSpec, b_first: bool) -> Out {
+    let (da, db) = (ctx.blob(a.blob), ctx.blob(b.blob));
+    let mut wa = open_async_writer(ctx, a, &da).await.map_err(err_out);
+    let mut wb = open_async_writer(ctx, b, &db).await.map_err(err_out);
+    let (ca, cb) = (cut_chunks(&da, &a.chunks), cut_chunks(&db, &b.chunks));
+    for i in 0..ca.len().max(cb.len()) {
+        if let (Ok(wr), Some(ch)) = (wa.as_mut(), ca.get(i)) {
+            if let Err(e) = async_write_chunk(wr, ch).await {
+                wa = Err(io_out(e));
+            }
+        }
+        if let (Ok(wr), Some(ch)) = (wb.as_mut(), cb.get(i)) {
+            if let Err(e) = async_write_chunk(wr, ch).await {
+                wb = Err(io_out(e));
+            }
+        }
+    }
+    async fn fin(w: Result<cacache::Writer, Out>) -> Out {
+        match w {
+            Ok(w) => match w.commit().await {
+                Ok(sri) => Out::Int(sri.to_string()),
+                Err(e) => err_out(e),
+            },
+            Err(o) => o,
+        }
+    }
+    let (oa, ob) = if b_first {
+        let ob = fin(wb).await;
+        (fin(wa).await, ob)
+    } else {
+        let oa = fin(wa).await;
+        (oa, fin(wb).await)
+    };
+    Out::Pair(Box::new(oa), Box::new(ob))
+}
+
 fn do_abandon_sync(ctx: &Ctx, s: &WriteSpec, at: AbandonAt) -> Out {
     let data = ctx.blob(s.blob);
     let mut w = match open_sync_writer(ctx, s, &data) {
@@ -960,6 +1028,7 @@ fn do_sync(ctx: &Ctx, op: &Op) -> Out {
         Op::IdxDelete { key } => unit(cacache::index::delete(cache, ctx.key(*key))),
         Op::LinkTo(l) => do_link_sync(ctx, l),
         Op::Abandon { spec, at } => do_abandon_sync(ctx, spec, *at),
+        Op::TwoWriters { a, b, b_first } => do_two_sync(ctx, a, b, *b_first),
         Op::DamageContent { .. } | Op::DamageBucket { .. } | Op::ForeignRecord { .. } | Op::Chdir { .. } | Op::PlantRecord { .. } | Op::TmpElsewhere => unreachable!(),
     }
 }
@@ -1052,6 +1121,7 @@ async fn do_async(ctx: &Ctx<'_>, op: &Op) -> Out {
         Op::IdxDelete { key } => unit(cacache::index::delete_async(cache, ctx.key(*key)).await),
         Op::LinkTo(l) => do_link_async(ctx, l).await,
         Op::Abandon { spec, at } => do_abandon_async(ctx, spec, *at).await,
+        Op::TwoWriters { a, b, b_first } => do_two_async(ctx, a, b, *b_first).await,
         Op::DamageContent { .. } | Op::DamageBucket { .. } | Op::ForeignRecord { .. } | Op::Chdir { .. } | Op::PlantRecord { .. } | Op::TmpElsewhere => unreachable!(),
     }
 }
